@@ -931,6 +931,77 @@ func c10Fault(tmproot string, limit, big, small int) (hist []c10hev, final []int
 	return hist, final, raw, nil
 }
 
+// ---------------------------------------------------------------- kind 6: Store with a context that ends during it
+
+// c10FlipCtx is a context whose Err() starts to report Canceled after it has been asked [after] times:
+// a cancellation that arrives at a deterministic point in the middle of a Store that polls its context.
+type c10FlipCtx struct {
+	context.Context
+	calls, after int32
+	done         chan struct{}
+	once         sync.Once
+}
+
+func (c *c10FlipCtx) Err() error {
+	if atomic.AddInt32(&c.calls, 1) > c.after {
+		c.once.Do(func() { close(c.done) })
+		return context.Canceled
+	}
+	return nil
+}
+func (c *c10FlipCtx) Done() <-chan struct{} { return c.done }
+
+// c10CtxStores: Stores of multi-MiB values over an existing value and onto fresh keys with contexts that
+// end during the Store. Per trial: (result class of Store, what Load returns afterwards: 1 the complete new
+// value, 0 the complete old value resp. not-exist for a fresh key, -1 anything else, e.g. a prefix).
+func c10CtxStores(tmproot string, r *rand.Rand, n int) (trials [][2]int, descr []string, err error) {
+	dir, e := os.MkdirTemp(tmproot, "ctx")
+	if e != nil {
+		return nil, nil, e
+	}
+	defer os.RemoveAll(dir)
+	s := &certmagic.FileStorage{Path: dir}
+	bg := context.Background()
+	for i := 0; i < n; i++ {
+		size := []int{3 << 20, 1<<20 + 1, 5 << 20, 300000}[i%4]
+		fresh := i%2 == 1
+		key := fmt.Sprintf("c/k%d", i)
+		oldv := c10Value(1000+i, 65536)
+		if !fresh {
+			if e := s.Store(bg, key, oldv); e != nil {
+				return nil, nil, e
+			}
+		}
+		newv := c10Value(2000+i, size)
+		var ctx context.Context
+		what := ""
+		if i%3 == 2 { // cancelled from another goroutine while the write is under way
+			c, cancel := context.WithCancel(bg)
+			d := time.Duration(r.Intn(1500)) * time.Microsecond
+			go func() { time.Sleep(d); cancel() }()
+			ctx, what = c, fmt.Sprintf("cancel after %v", d)
+			defer cancel()
+		} else {
+			after := int32([]int{1, 2, 3, 5, 9, 14}[(i/2)%6])
+			ctx, what = &c10FlipCtx{Context: bg, after: after, done: make(chan struct{})}, fmt.Sprintf("Err() flips after %d calls", after)
+		}
+		serr := s.Store(ctx, key, newv)
+		b, lerr := s.Load(bg, key)
+		loaded := -1
+		switch {
+		case lerr == nil && bytes.Equal(b, newv):
+			loaded = 1
+		case lerr == nil && !fresh && bytes.Equal(b, oldv):
+			loaded = 0
+		case fresh && errors.Is(lerr, fs.ErrNotExist):
+			loaded = 0
+		}
+		trials = append(trials, [2]int{c10cls(serr), loaded})
+		descr = append(descr, fmt.Sprintf("%s, %d bytes, fresh=%v: store cls %d, load %d (len %d)", what, size, fresh, c10cls(serr), loaded, len(b)))
+	}
+	return trials, descr, nil
+}
+
 // ---------------------------------------------------------------- kind 3: SIGKILL
 
 func c10Crash(tmproot string, r *rand.Rand, size int, delay time.Duration) (acked, started, loaded, temps, missing int, err error) {
@@ -1256,6 +1327,30 @@ func runC10(tier string, seed int64, outdir string, replay string) error {
 			Obs: map[string]any{"store_over_existing_cls": final[0], "store_fresh_cls": final[1], "loaded_id": final[2], "expected_id": final[3],
 				"fresh_exists": final[4], "stat_fresh_cls": final[5], "dir_entries": final[6], "last_line": lines[len(lines)-2:]},
 			Wire: f.String(), Nontrivial: true, Key: fmt.Sprint("fault", i)})
+	}
+
+	// ---- kind 6: Stores with a context that ends during the Store
+	{
+		n := 12
+		if tier == "thorough" {
+			n = 48
+		}
+		trials, descr, err := c10CtxStores(tmproot, r, n)
+		if err != nil {
+			return err
+		}
+		e := &emit.Enc{}
+		e.Int(6).Len(len(trials))
+		bad := 0
+		for _, t := range trials {
+			e.Int(t[0]).Int(t[1])
+			if !((t[0] == 0 && t[1] == 1) || (t[0] != 0 && t[1] == 0)) {
+				bad++
+			}
+		}
+		w.Hist(fmt.Sprintf("ctx_store_trials_bad=%d", bad))
+		w.Add(emit.Case{Desc: map[string]any{"kind": "ctx-store", "class": "store-context-ends"}, In: map[string]any{"trials": n},
+			Obs: descr, Wire: e.String(), Nontrivial: true, Key: "ctxstore"})
 	}
 
 	// ---- kind 3: SIGKILL of a writer process
